@@ -80,6 +80,7 @@ class Raises:
     when: str | None = None  # raised iff `when` (if given)
     only_if: str | None = None  # may be raised only if
     cls: str = "P"
+    post: list = field(default_factory=list)  # [(label, expr)] that hold when the exception leaves the function
 
 
 @dataclass
@@ -109,6 +110,8 @@ class Contract:
     bv_u1: bool = False  # model uint8 arrays allocated in the body as bit-vectors
     kind: str = "function"  # 'function' | 'race' | 'lemma'
     ghost_params: dict = field(default_factory=dict)
+    decreases: str | None = None  # termination measure of a recursive lemma function
+    no_lemma_axioms: bool = False  # set on the lemma's own proof (no circularity)
     build: object = None  # lemma: callable(verifier) -> (obligations, status)
 
     def ensure(self, label, expr, cls="P"):
